@@ -31,8 +31,8 @@ import (
 // max_fuel_per_byte) and must stay below cQuad/4 resp. linPer/4 or the check fails itself.
 const (
 	cQuad   = 400
-	linBase = 200_000
-	linPer  = 4_000
+	linBase = 100_000
+	linPer  = 1_000
 	runFuel = 400_000 // extra fuel for running an accepted program (family e)
 )
 
@@ -390,9 +390,11 @@ func commonPrefix(a, b []string) []string {
 	return a[:n]
 }
 
-// reduceText is a token-level delta reduction: suffix/prefix windows first (cheap on large
-// corpus mutants), then single-token deletion to a fixpoint. Template-mode inputs keep their
-// leading "<?php" token.
+// reduceText is a token-level delta reduction (ddmin over the check's own token spans):
+// suffix windows first (cheap for truncation failures of large corpus files), then removal of
+// chunks of n/2, n/4, ... 1 tokens while the predicate keeps holding. Template-mode inputs keep
+// their leading "<?php" token. The number of predicate evaluations is capped; the result is
+// always an input for which `bad` holds (or the original).
 func reduceText(src string, mode int, bad func(string) bool) string {
 	cur := src
 	toks, _ := crudeTokens(cur)
@@ -400,13 +402,14 @@ func reduceText(src string, mode int, bad func(string) bool) string {
 	if mode == 1 && len(toks) > 0 && cur[toks[0].s:toks[0].e] == "<?php" {
 		keep = 1
 	}
-	head := ""
-	if keep == 1 {
-		head = "<?php "
-	}
-	// windows: last k tokens
+	tests := 0
 	if len(toks) > 12 {
+		head := ""
+		if keep == 1 {
+			head = "<?php "
+		}
 		for k := 1; k <= 64 && k < len(toks)-keep; k *= 2 {
+			tests++
 			cand := head + cur[toks[len(toks)-k].s:]
 			if bad(cand) {
 				cur = cand
@@ -414,26 +417,40 @@ func reduceText(src string, mode int, bad func(string) bool) string {
 			}
 		}
 	}
-	for rounds := 0; rounds < 50; rounds++ {
+	const maxTests = 600
+	toks, _ = crudeTokens(cur)
+	chunk := (len(toks) - keep) / 2
+	if chunk < 1 {
+		chunk = 1
+	}
+	for tests < maxTests {
+		removed := false
 		toks, _ = crudeTokens(cur)
-		if len(toks) > 400 {
-			break // too large to reduce token by token; keep as is
-		}
-		changed := false
-		for i := len(toks) - 1; i >= keep; i-- {
-			cand := cur[:toks[i].s] + cur[toks[i].e:]
-			if len(strings.TrimSpace(cand)) == 0 {
-				continue
+		end := len(toks)
+		for end > keep && tests < maxTests {
+			start := end - chunk
+			if start < keep {
+				start = keep
 			}
-			if bad(cand) {
+			cand := cur[:toks[start].s] + " " + cur[toks[end-1].e:]
+			tests++
+			if len(strings.TrimSpace(cand)) > 0 && bad(cand) {
 				cur = cand
-				changed = true
+				toks, _ = crudeTokens(cur)
+				removed = true
+			}
+			end = start
+			if end > len(toks) {
+				end = len(toks)
+			}
+		}
+		if chunk == 1 {
+			if !removed {
 				break
 			}
+			continue
 		}
-		if !changed {
-			break
-		}
+		chunk /= 2
 	}
 	return cur
 }
